@@ -104,3 +104,14 @@ Proof.
          pep440_cls_ci_o, pep440_cls_ci_p, pep440_cls_ci_r, pep440_cls_ci_s, pep440_cls_ci_t, pep440_cls_ci_v, pep440_cls_ci_w, pep440_spec.
   ka.
 Qed.
+
+(* the part of sv_in_r after the optional v is itself within the BNF language (v is optional) *)
+Definition sv_rest_r : regex' :=
+  r_dot sv_num_r (r_dot semver_cls_dot (r_dot sv_num_r (r_dot semver_cls_dot (r_dot sv_num_r
+    (r_dot (r_pls r_one (r_dot semver_cls_dash pre_r)) (r_pls r_one (r_dot semver_cls_plus build_r))))))).
+Lemma sv_rest_ka : (sv_rest_r : regex') ≦ semver_spec.
+Proof.
+  unfold sv_rest_r, build_r, pre_r, buildid_r, preid_r, nd_r, idc_r, sv_num_r, semver_cls_zero, semver_cls_posdigit, semver_cls_digit, semver_cls_alpha, semver_cls_alnum,
+         semver_cls_dot, semver_cls_dash, semver_cls_plus, semver_spec.
+  ka.
+Qed.
